@@ -67,11 +67,17 @@ CloseUnder   == Faulty /\ Disk /\ s.open /\ Edge(<<"closeunder">>, [s EXCEPT !.o
 Corrupt(k)   == Faulty /\ s.open /\ s.ents[k] # Absent /\ k \notin s.bad
                 /\ Edge(<<"corrupt", k>>, [s EXCEPT !.bad = @ \cup {k}])                            \* record value undecodable
 
+\* the database files are found damaged when the store is opened again (a table file is missing, a block is unreadable): the store
+\* does not open - or opens and knows which records it cannot vouch for; either way no lookup is answered "not revoked" from what is left
+OpenDamaged  == Faulty /\ Disk /\ s.open /\ s.bad = {} /\ (\E k \in Keys : s.ents[k] # Absent)
+                /\ Edge(<<"opendamaged">>, [s EXCEPT !.open = FALSE])
+
 Next == \/ \E v \in Vals : Start(v) \/ ExtMeta(v) \/ Signer(v) \/ Locs(v)
         \/ \E k \in Keys, v \in Vals : Insert(k, v)
         \/ \E p \in Prepared : Replace(p)
         \/ Reopen
         \/ CloseUnder
+        \/ OpenDamaged
         \/ \E k \in Keys : Corrupt(k)
 
 Spec == Init /\ [][Next]_vars
